@@ -1,5 +1,7 @@
 """C05 - key isolation.  Theorems: Properties/C05.v.
-T2: interleaved multi-key histories vs the Coq model; oracle: each victim key's responses equal its solo run."""
+T2: interleaved multi-key histories vs the Coq model; oracle: each victim key's responses equal its solo run.
+Known finding (class stale-forget, shared with C17) for merges whose timestamps are not globally ordered."""
+from .. import common as C
 from .. import limcheck
 
 COQ_TARGETS = limcheck.COQ_TARGETS
@@ -7,10 +9,23 @@ COQ_TARGETS = limcheck.COQ_TARGETS
 
 def run(ctx):
     if ctx.tier == "quick":
-        modes = [("interleave", ["--cases", 60, "--maxlen", 300, "--noise", 3000])]
+        modes = [("witness_f7", []), ("interleave", ["--cases", 60, "--maxlen", 300, "--noise", 3000]),
+                 ("interleave", ["--cases", 30, "--maxlen", 150, "--disorder", 1])]
     else:
-        modes = [("interleave", ["--cases", 300, "--maxlen", 1200, "--noise", 3000]), ("interleave", ["--cases", 12, "--maxlen", 9000, "--noise", 5000])]
+        modes = [("witness_f7", []), ("interleave", ["--cases", 300, "--maxlen", 1200, "--noise", 3000]),
+                 ("interleave", ["--cases", 12, "--maxlen", 9000, "--noise", 5000]),
+                 ("interleave", ["--cases", 600, "--maxlen", 300, "--disorder", 1])]
     limcheck.run_modes(ctx, "C05", modes, {"C05"},
-        "victim keys (empty string, 64 KiB strings one byte apart, non-ASCII / combining forms, case variants) with fixed limits in D interleaved by timestamp with "
-        "traffic on up to thousands of other keys carrying arbitrary (also invalid and extreme) parameters; every store type; oracle: each victim's responses "
-        "equal its solo run on a fresh limiter (same or another store type)")
+        "victim keys (empty string, 64 KiB strings one byte apart, non-ASCII / combining forms, case variants) with fixed limits in D interleaved with "
+        "traffic on up to thousands of other keys carrying arbitrary (also invalid and extreme) parameters; every store type; merges by timestamp "
+        "(globally non-decreasing) and merges with every victim on its own clock (not globally ordered); oracle: each victim's responses "
+        "equal its solo run on a fresh limiter (same or another store type)", known_class="stale-forget")
+    known, _fixed = C.load_known_findings()
+    listed = [k for k in known if "property=C05" in k and "class=stale-forget" in k]
+    if getattr(ctx, "known_hits", 0) and listed:
+        ctx.known.append(("F7", "stale-forget: with timestamps not globally non-decreasing a key's responses differ from its solo run after its entry was "
+                                "reclaimed relative to a later timestamp (witness findings/F7-stale-forget.json reproduced=%s; %d occurrences in this run, all in the listed class)"
+                          % (getattr(ctx, "known_witness_reproduced", False), ctx.known_hits)))
+    elif getattr(ctx, "known_hits", 0):
+        ctx.violations.append({"what": "stale-forget violations observed but not listed in KNOWN_FINDINGS.txt", "input": "see findings/F7-stale-forget.json"})
+    ctx.coverage["known_finding_occurrences"] = getattr(ctx, "known_hits", 0)
